@@ -371,3 +371,193 @@ fn has_shared_uris(w: &world::World) -> bool {
         v.entries.iter().any(|e| !seen.insert(format!("{:?}", e.id)))
     })
 }
+
+// ------------------------------------------------------------------ hostile mapping tables and patches (C02 only)
+
+use crate::engines::images::{apply_fault, gen_fault, ImgFault};
+
+#[derive(Clone, Serialize, Deserialize)]
+pub struct HostileTrace {
+    pub world: world::World,
+    /// faults on the payload of the mapping table in slot 0 / 1 of the base font
+    pub map_faults: Vec<(usize, ImgFault)>,
+    /// faults on patch bytes, by fetch order
+    pub patch_faults: Vec<(u32, ImgFault)>,
+    pub defs: Vec<Def>,
+    pub hash_seed: u64,
+}
+
+pub struct IftHostile;
+
+fn widen_format1(w: &mut world::World, rng: &mut Rng) {
+    // give a format-1 root table more than 255 entries (two-byte entry indices) through feature records
+    let Some(r) = w.roots[0] else { return };
+    if w.versions[r].table_format != 1 {
+        return;
+    }
+    let tags: [[u8; 4]; 5] = [*b"c2sc", *b"dlig", *b"kern", *b"liga", *b"smcp"];
+    let per = 52 + rng.below(20) as usize;
+    let maxg = w.versions[r].f1_max_glyph_entry;
+    let mut feats = Vec::new();
+    for t in tags {
+        let recs: Vec<(u16, u16)> = (0..per)
+            .map(|_| {
+                let a = rng.below(maxg as u64 + 1) as u16;
+                let b = rng.below(maxg as u64 + 1) as u16;
+                (a.min(b), a.max(b))
+            })
+            .collect();
+        feats.push((t, recs));
+    }
+    let template = w.versions[r].entries.first().cloned();
+    let Some(template) = template else { return };
+    let glyph_entries = maxg as usize;
+    w.versions[r].entries.truncate(glyph_entries);
+    w.versions[r].f1_features = feats;
+    for i in 0..(per * 5) {
+        let mut e = template.clone();
+        e.id = world::EntryId::Num((glyph_entries + i + 1) as u32);
+        w.versions[r].entries.push(e);
+    }
+}
+
+impl Engine for IftHostile {
+    type Trace = HostileTrace;
+    fn name(&self) -> &'static str {
+        "ift_hostile_tables_and_patches"
+    }
+    fn rule(&self) -> &'static str {
+        "case = generated IFT world (sometimes with a format-1 map of more than 255 entries) whose base font's mapping tables suffer 1-3 storage faults (short read, bit flip, zeroed/duplicated/shifted sector, slot overwrite, extreme field) and whose fetched patches may be faulted too; then intersection, selection and up to 3 apply rounds for several definitions (including feature sets that skip feature records); judged by totality only; non-trivial iff a fault landed"
+    }
+    fn components(&self) -> &'static str {
+        "real: IFT client (patch map reading, intersection, selection, glyph-/table-keyed application, C brotli decoder); stub: server, fault injector"
+    }
+    fn generate(&self, case_seed: u64) -> HostileTrace {
+        let mut rng = Rng::new(case_seed);
+        let mut w = world::gen_world(&mut rng);
+        if rng.chance(1, 3) {
+            widen_format1(&mut w, &mut rng);
+        }
+        let n = 1 + rng.below(3);
+        let mut map_faults: Vec<(usize, ImgFault)> = (0..n).map(|_| (rng.usize_below(2), gen_fault(&mut rng, 400, false))).collect();
+        if rng.chance(1, 2) {
+            // a short read that lands in the tail of the table (feature / entry-map records, id strings)
+            let len = w.roots[0].map(|r| w.map_table_bytes(r, &Default::default()).len()).unwrap_or(64) as u64;
+            map_faults.push((0, ImgFault::Truncate { at: (len - rng.below(len / 2 + 1)) as u32 }));
+        }
+        let patch_faults = (0..rng.below(3)).map(|_| (rng.below(4) as u32, gen_fault(&mut rng, 300, false))).collect();
+        let mut defs: Vec<Def> = (0..2).map(|_| world::gen_def(&mut rng, w.n_glyphs)).collect();
+        // feature sets that make the feature-map walk skip earlier records
+        defs.push(Def { cps: vec![], inverted: true, features: Some(vec![*rng.pick(&[*b"smcp", *b"\0\0\0\0", *b"zzzz", *b"liga"])]), design: None });
+        defs.push(Def::all());
+        HostileTrace { world: w, map_faults, patch_faults, defs, hash_seed: rng.next_u64() | 1 }
+    }
+    fn execute(&self, t: &mut HostileTrace, stats: &mut Stats) -> Verdict {
+        use incremental_font_transfer::patch_group::{PatchGroup, UriStatus};
+        use incremental_font_transfer::patchmap::intersecting_patches;
+        use read_fonts::{types::Tag, FontRef};
+        let base = t.world.base_font();
+        let Ok(fr) = FontRef::new(&base) else { return Verdict::Inconclusive("base font does not open".into()) };
+        let mut b = write_fonts::FontBuilder::new();
+        let mut landed = false;
+        for slot in 0..2 {
+            let tag = Tag::new(if slot == 0 { b"IFT " } else { b"IFTX" });
+            let Some(data) = fr.table_data(tag) else { continue };
+            let mut payload = data.as_bytes().to_vec();
+            for (s, f) in &t.map_faults {
+                if *s == slot && apply_fault(&mut payload, None, f) {
+                    landed = true;
+                    stats.bump("fault.ift.mapping_table_corrupted");
+                }
+            }
+            b.add_raw(tag, payload);
+        }
+        b.copy_missing_tables(fr);
+        let font0 = b.build();
+        let server = sim::server_index(&t.world);
+        let all: Vec<String> = server.keys().cloned().collect();
+        let defs = t.defs.clone();
+        let world = t.world.clone();
+        let pf = t.patch_faults.clone();
+        let digest = hashseed::run_on_fresh_thread(t.hash_seed, 16 << 20, move || {
+            let mut d = crate::core::rng::Digest::new();
+            let dec = sim::SimDecoder::new();
+            for def in &defs {
+                let rd = sim::real_def(def);
+                let mut font = font0.clone();
+                let mut book: std::collections::HashMap<String, UriStatus> = std::collections::HashMap::new();
+                let mut fetch_no = 0u32;
+                for _round in 0..3 {
+                    let Ok(f) = FontRef::new(&font) else { break };
+                    match intersecting_patches(&f, &rd) {
+                        Ok(v) => {
+                            d.u64(v.len() as u64);
+                            for p in v.iter().take(50) {
+                                d.u64(p.uri_string().map(|s| s.len() as u64).unwrap_or(0));
+                            }
+                        }
+                        Err(_) => d.u64(0xe),
+                    }
+                    let Ok(group) = PatchGroup::select_next_patches(f, &rd) else {
+                        d.u64(0xf);
+                        break;
+                    };
+                    if !group.has_uris() {
+                        break;
+                    }
+                    let uris: Vec<String> = group.uris().map(|s| s.to_string()).collect();
+                    for u in &uris {
+                        if book.contains_key(u) {
+                            continue;
+                        }
+                        // unknown URIs (corrupted ids/templates) get some other patch of the world
+                        let (v, e) = server.get(u).copied().unwrap_or_else(|| if all.is_empty() { (0, 0) } else { server[&all[fetch_no as usize % all.len()]] });
+                        if world.versions.get(v).map(|x| x.entries.len() > e).unwrap_or(false) {
+                            let mut body = world.patch_bytes(v, e);
+                            for (k, f) in &pf {
+                                if *k == fetch_no {
+                                    apply_fault(&mut body, None, f);
+                                }
+                            }
+                            book.insert(u.clone(), UriStatus::Pending(body));
+                        }
+                        fetch_no += 1;
+                    }
+                    dec.reset(None);
+                    match group.apply_next_patches_with_decoder(&mut book, &dec) {
+                        Ok(nf) => {
+                            d.u64(nf.len() as u64);
+                            font = nf;
+                        }
+                        Err(_) => {
+                            d.u64(0xa);
+                            break;
+                        }
+                    }
+                }
+            }
+            d.finish()
+        });
+        let digest = match digest {
+            Ok(d) => d,
+            Err(_) => std::panic::resume_unwind(Box::new("IFT client panicked")),
+        };
+        stats.bump("oracle.C02.total_ift_client");
+        Verdict::Pass { digest, sig: fnv(serde_json::to_string(&(&t.map_faults, &t.patch_faults, &t.defs, &t.world.data_seed)).unwrap_or_default().as_bytes()), nontrivial: landed }
+    }
+    fn shrink(&self, t: &HostileTrace) -> Vec<HostileTrace> {
+        let mut out = Vec::new();
+        for f in drop_chunks(&t.map_faults) {
+            out.push(HostileTrace { map_faults: f, ..t.clone() });
+        }
+        for f in drop_chunks(&t.patch_faults) {
+            out.push(HostileTrace { patch_faults: f, ..t.clone() });
+        }
+        for f in drop_chunks(&t.defs) {
+            if !f.is_empty() {
+                out.push(HostileTrace { defs: f, ..t.clone() });
+            }
+        }
+        out
+    }
+}
